@@ -196,6 +196,13 @@ func catalogue() []SItem {
 		Vars: []SVar{
 			{Tag: "neg", Kind: "refactor:cmp-swap", Par: P("a PFN_tag, b PFN_tag"), Body: "if a <= b {\n\t\treturn 2\n\t}\n\treturn 1"},
 		}})
+	// unsigned literals near 2^64 are large literals like any other (they do not fit in int64)
+	add(SItem{Group: "A", Par: P("a uint64"), Ret: R("uint64"), Body: "return a & 0xFFFFFFFFFFFFFFFF",
+		Vars: []SVar{
+			{Tag: "lit", Kind: "literal:bigint", Body: "return a & 0xFFFFFFFFFFFFFFFE"},
+			{Tag: "lit2", Kind: "literal:bigint", Body: "return a & 0x8000000000000000"},
+			{Tag: "or", Kind: "edit:operator", Body: "return a | 0xFFFFFFFFFFFFFFFF"},
+		}})
 	// floating-point comparisons: x >= y is NOT the negation of x < y (NaN), so the branch-swap
 	// normalisation must not apply; arithmetic is not reassociated either
 	for _, c := range []cmp{{">=", "<"}, {">", "<="}} {
@@ -308,6 +315,30 @@ func catalogue() []SItem {
 		Body: "for i := 0; i < len(a); i++ {\n\t\tif a[i] == 0 {\n\t\t\ta = a[:i]\n\t\t}\n\t}\n\treturn len(a)",
 		Vars: []SVar{
 			{Tag: "hoist", Kind: "edit:hoist-len", Body: "n := len(a)\n\tfor i := 0; i < n; i++ {\n\t\tif a[i] == 0 {\n\t\t\ta = a[:i]\n\t\t}\n\t}\n\treturn len(a)"},
+		}})
+
+	// defined (named) map type whose size changes inside the loop: len() must not be hoisted either
+	add(SItem{Group: "L", Pre: "type FN_set map[int]bool", Par: P("n int"), Ret: R("int"), Unwind: 8,
+		Body: "s := FN_set{0: true, 1: true, 2: true}\n\tc := 0\n\tfor i := 0; i < n && i < 6; i++ {\n\t\tdelete(s, i)\n\t\tc += len(s)\n\t}\n\treturn c",
+		Vars: []SVar{
+			{Tag: "hoist", Kind: "edit:hoist-len", Body: "s := PFN_set{0: true, 1: true, 2: true}\n\tc := 0\n\tl := len(s)\n\tfor i := 0; i < n && i < 6; i++ {\n\t\tdelete(s, i)\n\t\tc += l\n\t}\n\treturn c"},
+		}})
+	add(SItem{Group: "L", Pre: "type FN_set map[int]bool", Par: P("n int"), Ret: R("int"), Unwind: 8,
+		Body: "s := FN_set{0: true, 1: true, 2: true}\n\trounds := 0\n\tfor i := 0; i < n; i++ {\n\t\tif len(s) == 0 {\n\t\t\tbreak\n\t\t}\n\t\tdelete(s, i)\n\t\trounds++\n\t}\n\treturn rounds",
+		Vars: []SVar{
+			{Tag: "hoist", Kind: "edit:hoist-len", Body: "s := PFN_set{0: true, 1: true, 2: true}\n\trounds := 0\n\tl := len(s)\n\tfor i := 0; i < n; i++ {\n\t\tif l == 0 {\n\t\t\tbreak\n\t\t}\n\t\tdelete(s, i)\n\t\trounds++\n\t}\n\treturn rounds"},
+		}})
+	add(SItem{Group: "L", Pre: "type FN_set map[int]bool", Par: P("n int"), Ret: R("int"), Unwind: 8,
+		Body: "s := FN_set{0: true, 1: true, 2: true}\n\thash := 0\n\tfor i := 0; i < n && i < 5; i++ {\n\t\thash = hash*31 + len(s)\n\t\tdelete(s, i)\n\t}\n\treturn hash",
+		Vars: []SVar{
+			{Tag: "hoist", Kind: "edit:hoist-len", Body: "s := PFN_set{0: true, 1: true, 2: true}\n\thash := 0\n\tl := len(s)\n\tfor i := 0; i < n && i < 5; i++ {\n\t\thash = hash*31 + l\n\t\tdelete(s, i)\n\t}\n\treturn hash"},
+		}})
+	// loops without a post statement: several back edges update the variable by different amounts
+	add(SItem{Group: "L", Par: P("n int"), Ret: R("int"), Unwind: 10,
+		Body: "i, c := 0, 0\n\tfor i < n {\n\t\tuse(i)\n\t\tc++\n\t\tif i%3 == 0 {\n\t\t\ti += 2\n\t\t} else {\n\t\t\ti++\n\t\t\tcontinue\n\t\t}\n\t}\n\treturn c",
+		Vars: []SVar{
+			{Tag: "mirror", Kind: "edit:loop-form", Body: "i, c := 0, 0\n\tfor i < n {\n\t\tuse(i)\n\t\tc++\n\t\tif i%3 == 0 {\n\t\t\ti += 2\n\t\t\tcontinue\n\t\t}\n\t\ti++\n\t}\n\treturn c"},
+			{Tag: "down", Kind: "edit:loop-direction", Body: "i, c := n, 0\n\tfor i > 0 {\n\t\tuse(i)\n\t\tc++\n\t\tif i%2 == 0 {\n\t\t\ti -= 3\n\t\t} else {\n\t\t\ti--\n\t\t\tcontinue\n\t\t}\n\t}\n\treturn c"},
 		}})
 
 	// ---------------------------------------------------------------- S: slices, strings, structs
